@@ -87,6 +87,8 @@ def _user_arrays(mk):
         "ub": mk(np.array([10.0, 9.0, 8.0])), "lb": mk(np.array([-1.0, 0.0, -3.0])), "Q": mk(np.array([[2.0, 0.5, 0.75], [0.5, 1.0, 0.25], [0.75, 0.25, 4.0]])),
         "q": mk(np.array([0.25, 0.25, 0.5])), "s": mk(np.array([1.0, 2.0, 3.0])), "zc": mk(np.array([[1.0, 0.0], [2.0, -1.0], [0.0, 1.0]])),
         "zv": mk(np.array([0.5, -0.5])), "beta": mk(np.array([1.0, 2.0, 1.0])), "w": mk(np.array([[1.0, 2.0, 3.0]])),
+        # plain Python containers are user data too
+        "beta_list": [1, 2, 2], "powers": [1, 2, 3], "bounds_list": [10.0, 9.0, 8.0], "Q_list": [[2.0, 0.5, 0.75], [0.5, 1.0, 0.25], [0.75, 0.25, 4.0]],
     }
 
 
@@ -104,6 +106,8 @@ def build_ro(U):
     m.st(rso.quad(x, U["Q"]) <= t, rso.kldiv(x[:3] + 2, U["q"], 5.0), rso.pexp(x, U["s"]) <= 50, rso.norm(U["w"] @ x + 1, 2) <= 30)
     m.st((y + U["zc"] @ z <= U["ub"] + 5).forall(abs(z) <= U["zv"] + 2))
     m.st(rso.concat([x, U["b"]]) <= 20, (U["A"] @ x) @ U["b"] + U["b"].sum() <= 100, U["A"] @ y >= -50 - 0 * t)
+    m.st(rso.gmean(x + 4, U["beta_list"]) >= 0.5, rso.power(x + 4, U["powers"]) <= 5000, rso.quad(x, U["Q_list"]) <= t + 50,
+         rso.gmean(x + 5, U["beta"]) >= 0.25)
     return m, {"x": x, "z": z, "y": y}
 
 
@@ -140,7 +144,7 @@ TEMPLATES = {"ro": build_ro, "dro": build_dro, "milp": build_milp}
 
 
 def _bytes(U):
-    return {k: (v.tobytes(), v.dtype.str, v.shape, v.strides) for k, v in U.items()}
+    return {k: ((v.tobytes(), v.dtype.str, v.shape, v.strides) if isinstance(v, np.ndarray) else repr(v)) for k, v in U.items()}
 
 
 def user_data():
